@@ -77,7 +77,7 @@ VComplete(P, os) ==
     ELSE Range(JoinOuts(os)) = RefSet(P)
 
 (* ---------- common steps ---------- *)
-CfgOf(r) == [kind |-> r.kind, edge |-> r.edge, n |-> r.n, fill |-> r.fill, tol |-> r.tol, on |-> r.on,
+CfgOf(r) == [kind |-> r.kind, edge |-> r.flow, n |-> r.n, fill |-> r.fill, tol |-> r.tol, on |-> r.on,
              onof |-> r.onof, gid |-> r.gid]
 Zero(n) == [s \in 1..n |-> 0]
 
